@@ -357,6 +357,48 @@ def local_env(fn_node, upto=None):
     return env
 
 
+def local_env_at(fn_node, use):
+    """local_env, plus - for locals bound more than once - the definition that reaches `use` along the straight line
+    of its own block: the nearest earlier plain assignment in the statement list that holds `use`, when no statement
+    in between (at any depth) binds the name again.  A name hoisted into two branches (`term1` in a fast path and in
+    the general code) then reads its own branch's definition."""
+    env = local_env(fn_node)
+    multi = [k for k, v in env.items() if v is None]
+    if not multi or use is None:
+        return env
+
+    def find_block(stmts):
+        for i, s in enumerate(stmts):
+            if any(x is use for x in ast.walk(s)):
+                for f in ("body", "orelse", "finalbody"):
+                    b = getattr(s, f, None)
+                    if isinstance(b, list) and b and isinstance(b[0], ast.stmt):
+                        r = find_block(b)
+                        if r is not None:
+                            return r
+                for h in getattr(s, "handlers", []):
+                    r = find_block(h.body)
+                    if r is not None:
+                        return r
+                return stmts, i
+        return None
+    found = find_block(fn_node.body)
+    if found is None:
+        return env
+    stmts, i = found
+    for name in multi:
+        for j in range(i - 1, -1, -1):
+            s = stmts[j]
+            binds = [x for x in ast.walk(s) if isinstance(x, ast.Name) and x.id == name and isinstance(x.ctx, ast.Store)]
+            if not binds:
+                continue
+            if isinstance(s, ast.Assign) and len(s.targets) == 1 and isinstance(s.targets[0], ast.Name) \
+                    and s.targets[0].id == name:
+                env[name] = s.value
+            break
+    return env
+
+
 # comparator normal form --------------------------------------------------------
 FLIP = {ast.Lt: ast.Gt, ast.Gt: ast.Lt, ast.LtE: ast.GtE, ast.GtE: ast.LtE, ast.Eq: ast.Eq, ast.NotEq: ast.NotEq}
 NEG = {ast.Lt: ast.GtE, ast.Gt: ast.LtE, ast.LtE: ast.Gt, ast.GtE: ast.Lt, ast.Eq: ast.NotEq, ast.NotEq: ast.Eq}
